@@ -1,5 +1,6 @@
 import Rink.Model.Parse
 import Rink.Model.Registry
+import Rink.Model.Commands
 /-!
 Model of `core/src/runtime/eval.rs` (`eval_expr`, `eval_unit_name`, `to_list`, `eval_query`)
 and `core/src/helpers.rs::eval`, restricted to `Value::Number`.  Dates and substances answer
@@ -194,6 +195,8 @@ inductive Reply where
       (base : Nat) (digits : Digits)
   | convNone (n : Number) (base : Nat) (digits : Digits) (baseGiven : Bool)
   | unitList (top : Number) (parts : List ListEntry)
+  | unitsFor (of : Number) (groups : List (Option String × List String))
+  | factorize (results : List (List (String × Nat)))
 deriving Repr
 
 /-- the numeric loop of `to_list` -/
@@ -263,6 +266,16 @@ def finishExpr (ctx : Ctx) (n : Number) : Outcome Reply :=
     pure (.duration n parts)
   else .ok (.number n)
 
+/-- the operand of `units for` / `factorize`: a quantity name denotes that quantity's
+dimensionality (first match in the quantity table), anything else is evaluated -/
+def quantityOrValue (ctx : Ctx) (e : Expr) : Outcome Number :=
+  let q : Option Dim := match e with
+    | .unit name => (ctx.reg.quantities.find? fun x => x.2 == name).map (·.1)
+    | _ => none
+  match q with
+  | some d => .ok ⟨.one, d⟩
+  | none => evalExpr ctx e
+
 def evalQuery (ctx : Ctx) (q : Query) : Outcome Reply :=
   let defCase : Option String := match q with
     | .expr (.unit name) => if canShowDefinition ctx name then some name else none
@@ -323,8 +336,12 @@ def evalQuery (ctx : Ctx) (q : Query) : Outcome Reply :=
             | .unsupported s => .unsupported s
   | .convert _ _ (some _) _ => .err .generic
   | .convert _ _ _ _ => .err .generic
-  | .factorize _ => .unsupported "factorize"
-  | .unitsFor _ => .unsupported "units for"
+  | .factorize e => do
+    let v ← quantityOrValue ctx e
+    pure (.factorize (Commands.factorizeReply ctx.reg.quantities v.unit))
+  | .unitsFor e => do
+    let v ← quantityOrValue ctx e
+    pure (.unitsFor v (Commands.unitsFor ctx.reg ctx.canonicalize v.unit))
   | .search _ => .unsupported "search"
   | .expr e => do let n ← evalExpr ctx e; finishExpr ctx n
   | .error _ => .err .generic
